@@ -18,6 +18,9 @@ Classes (DESIGN section 4):
   loop    while/else, for/else, break/continue at depth, loop first, for-targets
           live after the loop, empty iterables, shared targets, names next/iter
   empty   if arms / loop bodies consisting only of pass/break/continue
+  dead    statements (simple and compound) that follow a return / break /
+          continue in the same suite: unreachable code that must not change
+          where the terminator leaves to
 """
 import ast
 import random
@@ -36,6 +39,7 @@ class Cfg:
         self.return_everywhere = False
         self.shadow_builtins = False
         self.objs = False
+        self.dead_code = False
         self.__dict__.update(kw)
 
 
@@ -47,6 +51,7 @@ CLASSES = {
     "loop": Cfg(loop_first=True, for_target_live=True, shadow_builtins=True),
     "empty": Cfg(empty_arms=True),
     "boolnest": Cfg(nested_boolop=True),
+    "dead": Cfg(dead_code=True),
 }
 
 
@@ -181,6 +186,10 @@ class PG:
         for _ in range(self.r.randint(1, self.c.maxstmts)):
             out += self.stmt(depth, inloop, ind)
             if out[-1].strip().startswith(("return", "break", "continue")):
+                if self.c.dead_code and self.r.random() < 0.6:
+                    # unreachable statements behind the terminator (same suite)
+                    for _ in range(self.r.randint(1, 2)):
+                        out += self.stmt(depth + 1, inloop, ind)
                 break
         if self.c.return_everywhere and not out[-1].strip().startswith(
                 ("return", "break", "continue")) and self.r.random() < 0.5:
@@ -265,6 +274,8 @@ class PG:
         for _ in range(self.r.randint(1, self.c.maxstmts)):
             body += self.stmt(0, False, 4)
             if body[-1].strip().startswith("return"):
+                if self.c.dead_code and self.r.random() < 0.5:
+                    body += self.stmt(1, False, 4)
                 break
         if not body[-1].strip().startswith("return") and self.r.random() < 0.7:
             body.append(f"    return {self.rootexpr()}")
